@@ -19,6 +19,15 @@ the types out. The field types the expected value is computed from come from the
 `_generic_order_cases` enumerates every permutation of the variables for n = 2, 3 on every seed.
 A fixed family run on every seed (`_tagged_same_type_cases`) declares a nested model with the same tagged hint
 (Annotated / NotRequired) on both sides, where tags must stay invisible to the linking rules.
+Positions below generic types: one generated case in eight (`Gen.positional_case`) and 15 % of the ordinary ones
+(`positional-overlay`) carry user coercers whose predicates are patterns over the location stack of a coercion site
+(`P[dict].generic_arg(i, T)`, `P[list].generic_arg(0, T)`, `P.generic_arg(i, ANY)`, `P[D].field.generic_arg(1, T)`,
+field- and type-bound ones, now and then aimed at the sibling position) next to the general coercer of the leaf pair,
+in random recipe order, over types that repeat ONE (source, destination) leaf pair at sibling positions (key and
+value of a mapping, mappings below / above lists and Optional, several fields, nested models, the converter's own
+pair); `_position_cases` crosses seven such shapes with eight bound coercers and both recipe orders on every seed.
+The expected value uses, per position, the FIRST recipe entry whose predicates hold on that position's stacks, by
+the harness's own evaluation (`Spec.pred`, `Spec.user_coercer`).
 Second suite `link`: the linkings the real ModelCoercerProvider fetches for the top-level model pair (observed by a
 recording subclass at the end of the user recipe) against `fetchFieldLinking` of the model.
 Third suite `history`: 2-6 operations on ONE retort (the module-level API = the global retort, or a
@@ -68,7 +77,16 @@ CLAIM = {
         "simultaneous substitution of the i-th argument for the i-th declared variable, whatever order a hint "
         "mentions the variables in (parametrize_eq_subst, subscript_respects_order_of_appearance, "
         "generic_fields_by_substitution, declared_variable_gets_its_argument, closed_hint_unchanged; collecting the "
-        "actuals in declaration order instead is refuted by decl_order_collection_differs). The hand-written "
+        "actuals in declaration order instead is refuted by decl_order_collection_differs). A coercer is chosen per "
+        "location: the first coercer(...) entry accepting the pair of location stacks (first_coercer_wins, "
+        "declining_coercers_invisible); generic_arg(i, q) holds exactly at the i-th type argument "
+        "(generic_arg_iff, generic_arg_not_field, pattern_parent_generic_arg), so an entry bound to one position is "
+        "invisible at a sibling position (sibling_bound_coercer_invisible_src / _dst); the converter of a mapping is "
+        "built from the coercer requested at the key location and the one requested at the value location, equal "
+        "type pairs included (dict_coercers_by_position, dict_spec_by_position), and maps {k: x} to {fk(k): fv(x)} "
+        "for the first entries fk / fv accepting the key / the value location (dict_entries_by_own_position, "
+        "user_coercer_applied; reusing the key coercer for the values is refuted by "
+        "key_coercer_reused_for_values_differs). The hand-written "
         "model is tied to /repo on every run by the `convert` correspondence over generated model pairs, recipes, "
         "parameters and values and by the `history` correspondence over generated request sequences on one retort, "
         "and the direct oracle re-checks the property on the real library against an "
@@ -180,6 +198,56 @@ def note_structure(ctx: Ctx, case):
             ctx.dist[f"profile-{k}"] += 1
     for k in generic_regions(case):
         ctx.dist[k] += 1
+    for k in position_regions(case):
+        ctx.dist[k] += 1
+
+
+def _walk_types(ty):
+    yield ty
+    t = ty["t"]
+    if t in ("opt", "iter"):
+        yield from _walk_types(ty["a"])
+    elif t == "dict":
+        yield from _walk_types(ty["k"])
+        yield from _walk_types(ty["v"])
+
+
+def position_regions(case):
+    """regions of the `position` part of the input space (evidence keys `pos-*`): user coercers whose predicates
+    address a position among the type arguments of a generic type (`generic_arg`), and mappings whose key and
+    value carry the same (source type, destination type) pair - read off the declared types: a destination
+    `Dict[b, b]` field / return type facing a source `Dict[a, a]` of the same-named field"""
+    out = set()
+    coercers = [p for p in case["recipe"] if p["k"] == "coercer"]
+    bound = [p for p in coercers if "garg" in json.dumps(p["src"]) or "garg" in json.dumps(p["dst"])]
+    if bound:
+        out.add("pos-recipe-with-position-bound-coercer")
+        if len(coercers) > len(bound):
+            out.add("pos-recipe-with-position-bound-and-general-coercer")
+        for p in bound:
+            for side in ("src", "dst"):
+                txt = json.dumps(p[side])
+                for pos in (0, 1):
+                    if f'"pos": {pos}' in txt:
+                        out.add(f"pos-coercer-{side}-predicate-generic_arg-{pos}")
+    by_id = {c["id"]: c for c in case["classes"]}
+    pairs = [(case["sig"]["params"][0]["ty"], case["sig"]["ret"])]
+    for d in case["classes"]:
+        if d["role"] != "dst":
+            continue
+        for s in case["classes"]:
+            if s["role"] == "src":
+                pairs += [(sf["ty"], f["ty"]) for f in d["fields"] for sf in s["fields"] if sf["id"] == f["id"]]
+    del by_id
+    for sty, dty in pairs:
+        for a, b in zip(_walk_types(sty), _walk_types(dty)):
+            if a["t"] == b["t"] == "dict" and (a["k"], b["k"]) == (a["v"], b["v"]):
+                out.add("pos-mapping-with-equal-key-and-value-pair")
+                if bound:
+                    out.add("pos-mapping-with-equal-key-and-value-pair:position-bound-coercer-in-recipe")
+            if a["t"] != b["t"]:
+                break
+    return sorted(out)
 
 
 def generic_regions(case):
@@ -773,6 +841,78 @@ def _generic_order_cases():
     return out
 
 
+def _position_cases():
+    """systematic family run on every seed: EQUAL (source type, destination type) pairs at sibling positions -
+    key and value of a mapping, the mapping below / above a list, Optional, a second mapping, several fields of
+    one model, the converter's own pair - crossed with ONE user coercer bound to a position (`P[dict].generic_arg(i,
+    T)` on the source or the destination side, `P.generic_arg(i, T)` below any parent, `P[list].generic_arg(0, T)`,
+    `P.<field>.generic_arg(1, T)`) standing before / after the general coercer of the pair in the recipe.
+    Expected values come from the linking rules (Spec): per position the FIRST recipe entry whose predicates hold
+    on that position's location stacks, evaluated by the harness."""
+    import random
+
+    from harness.props.c13_gen import Gen
+    from harness.props.c13_world import LEAF_INT, LEAF_STR, Universe, leaf, model_ty
+    org = lambda n: {"p": "origin", "o": {"o": "leaf", "n": n}}  # noqa: E731
+    garg = lambda pos, n: {"p": "garg", "pos": pos, "q": org(n)}  # noqa: E731
+    end = lambda *els: {"p": "end", "stack": list(els)}  # noqa: E731
+    DICT = {"p": "origin", "o": {"o": "dict"}}
+    LIST = {"p": "origin", "o": {"o": "iter", "k": "list"}}
+    dct = lambda k, v: {"t": "dict", "k": k, "v": v}  # noqa: E731
+    lst = lambda a: {"t": "iter", "o": "list", "a": a}  # noqa: E731
+    opt = lambda a: {"t": "opt", "a": a}  # noqa: E731
+    shapes = {
+        "dict": lambda x: [("table", dct(x, x))],
+        "dict-of-list": lambda x: [("table", dct(x, lst(x)))],
+        "list-of-dict": lambda x: [("table", lst(dct(x, x)))],
+        "dict-of-dict": lambda x: [("table", dct(x, dct(x, x)))],
+        "dict-of-optional": lambda x: [("table", dct(x, opt(x)))],
+        "several-fields": lambda x: [("table", lst(x)), ("y", opt(x)), ("z", x), ("w", dct(x, x))],
+        "top-level-dict": None,
+    }
+    out = []
+    idx = 0
+    kinds = ["dataclass", "namedtuple", "typeddict", "attrs"]
+    for a, b in ((LEAF_STR, LEAF_INT), (LEAF_STR, LEAF_STR)):
+        bounds = [(end(DICT, garg(0, a)), org(b)), (end(DICT, garg(1, a)), org(b)),
+                  (org(a), end(DICT, garg(0, b))), (org(a), end(DICT, garg(1, b))),
+                  (garg(0, a), org(b)), (garg(1, a), {"p": "any"}),
+                  (end(LIST, garg(0, a)), org(b)),
+                  (org(a), end({"p": "name", "n": "table"}, garg(1, b)))]
+        for shape, mk in shapes.items():
+            for bi, (bs, bd) in enumerate(bounds):
+                for order in ("bound-first", "general-first"):
+                    idx += 1
+                    kind = kinds[idx % 4]
+                    bound = {"k": "coercer", "src": bs, "dst": bd, "f": 1}
+                    general = {"k": "coercer", "src": org(a), "dst": org(b), "f": 2}
+                    recipe = [bound, general] if order == "bound-first" else [general, bound]
+                    if mk is None:
+                        classes = []
+                        sty, dty = dct(leaf(a), leaf(a)), dct(leaf(b), leaf(b))
+                    else:
+                        classes = [
+                            {"id": 0, "role": "src", "kind": kind, "name": "S0",
+                             "fields": [{"id": n, "ty": t} for n, t in mk(leaf(a))] + [{"id": "extra", "ty": leaf(LEAF_INT)}]},
+                            {"id": 1, "role": "dst", "kind": kinds[(idx // 4) % 4], "name": "D1",
+                             "fields": [{"id": n, "ty": t} for n, t in mk(leaf(b))]}]
+                        sty, dty = model_ty(0), model_ty(1)
+                    case = {"classes": classes, "api": ["get_converter", "impl_converter"][bi % 2], "fname": None,
+                            "recipe": recipe, "split": 0, "profile": {"position-family": True},
+                            "sig": {"params": [{"name": "src", "kind": "pos_only", "ty": sty}], "ret": dty}}
+                    u = Universe(classes)
+                    g = Gen(random.Random(idx))
+                    g.falsy = False
+                    v = None
+                    for _ in range(30):
+                        v = g.value(sty, u.logical)
+                        if '"kvs": []' not in json.dumps(v) and '"xs": []' not in json.dumps(v):
+                            break
+                    case["calls"] = [{"args": [v], "kwargs": []}]
+                    out.append(case)
+    return out
+
+
 def run(ctx: Ctx):
     drv = None
     if ctx.driver_ok:
@@ -783,6 +923,9 @@ def run(ctx: Ctx):
     run_cases(ctx, _fixed_cases() + _tagged_same_type_cases(), drv, "convert")
     fam = _generic_order_cases()
     ctx.dist["generic-order-family-cases"] += len(fam)
+    run_cases(ctx, fam, drv, "convert")
+    fam = _position_cases()
+    ctx.dist["position-family-cases"] += len(fam)
     run_cases(ctx, fam, drv, "convert")
     n = ctx.budget(1800, 19000)
     batch = 500
